@@ -217,3 +217,96 @@ def MakeOrderChain(rng):
 C04_FAMILIES = [('made_with_own_rules', MadeWithOwnRules),
                 ('made_with_limit', MadeWithLimit),
                 ('make_order_chain', MakeOrderChain)]
+
+
+# ---- C01 / C11: else-if chains, repeated functional calls --------------------------
+
+def IfChain(rng, k=None):
+  """P(x, <else-if chain over thresholds of x>) :- E(x) with every x in 0..4.
+  Non-adjacent branches share a value and later conditions overlap earlier
+  ones, so the first matching branch must win."""
+  import itertools
+  combos = list(itertools.combinations([0, 1, 2, 3], 3))
+  patterns = [(0, 1, 0), (0, 1, 1), (0, 0, 1), (1, 0, 1)]
+  k = rng.randrange(10 ** 6) if k is None else k
+  ths = sorted(combos[k % len(combos)], reverse=True)
+  pat = patterns[(k // len(combos)) % len(patterns)]
+  op = ['>', '>='][(k // (len(combos) * len(patterns))) % 2]
+  strings = (k // 32) % 2 == 0
+  vals = [Lit(S('far')), Lit(S('near'))] if strings else [Lit(N(10)), Lit(N(20))]
+  other = Lit(S('none')) if strings else Lit(N(0))
+  x = Var('x')
+  e = other
+  for j, th in enumerate(reversed(ths)):
+    nxt = If(Op(op, x, Lit(N(th))), vals[pat[2 - j]], e)
+    if e.get('k') == 'if':
+      e['chain'] = True
+    e = nxt
+  E = Facts('E', [(i,) for i in range(5)])
+  P = Pred('P', [Rule([('col0', x, ''), ('col1', e, '')],
+                      [Atom('E', [('col0', x)])])])
+  Q = Pred('Q', [Rule([('col0', x, '')],
+                      [Atom('E', [('col0', x)]),
+                       Cmp(Op('==', e, vals[0]))])])
+  return Prog([E, P, Q]), ['P', 'Q'], ['fam_if_chain']
+
+
+def RepeatedCall(rng):
+  """A multi-valued functional predicate called twice with the same arguments
+  in one rule: each occurrence is its own conjunct."""
+  x = Var('x')
+  rows = RandRows(rng, 2, n=4, lo=0, hi=2)
+  Fp = Pred('F', [Rule([('col0', Lit(N(a)), ''), ('logica_value', Lit(N(b)), '')])
+                  for a, b in rows])
+  T = Facts('T', [(i,) for i in range(3)])
+  Qp = Pred('Q', [Rule([('col0', x, ''),
+                        ('col1', Op('+', PCall('F', [('col0', x)]),
+                                    PCall('F', [('col0', x)])), '')],
+                       [Atom('T', [('col0', x)])])])
+  Rp = Pred('R', [Rule([('col0', x, ''),
+                        ('logica_value', Op('*', PCall('F', [('col0', x)]),
+                                            PCall('F', [('col0', x)])), 'Sum')],
+                       [Atom('T', [('col0', x)])], True)])
+  Sp = Pred('S', [Rule([('col0', x, ''), ('col1', Var('a'), ''),
+                        ('col2', Var('b'), '')],
+                       [Atom('T', [('col0', x)]),
+                        Unify(Var('a'), PCall('F', [('col0', x)])),
+                        Unify(Var('b'), PCall('F', [('col0', x)]))])])
+  return Prog([Fp, T, Qp, Rp, Sp]), ['Q', 'R', 'S'], ['fam_repeated_call']
+
+
+def DoubleNegation(rng):
+  x, y = Var('x'), Var('y')
+  R = Facts('R', RandRows(rng, 2, n=4, lo=0, hi=2))
+  T = Facts('T', [(i,) for i in range(3)])
+  Qp = Pred('Q', [Rule([('col0', x, '')],
+                       [Atom('T', [('col0', x)]),
+                        Neg([Neg([Atom('R', [('col0', x), ('col1', y)])])])])])
+  Cp = Pred('C', [Rule([('col0', x, ''), ('logica_value', Lit(N(1)), 'Sum')],
+                       [Atom('T', [('col0', x)]),
+                        Neg([Neg([Atom('R', [('col0', x), ('col1', y)])])])],
+                       True)])
+  return Prog([R, T, Qp, Cp]), ['Q', 'C'], ['fam_double_negation']
+
+
+def BoundInRepeated(rng):
+  """x in [a, a] / x in [a, v] with x already bound: one alternative per
+  element (so a repeated element doubles the row)."""
+  x, a = Var('x'), Var('a')
+  T = Facts('T', RandRows(rng, 1, n=3, lo=1, hi=2))
+  Sx = Facts('S', [(2,), (1,)])
+  Qp = Pred('Q', [Rule([('col0', x, '')],
+                       [Atom('T', [('col0', x)]),
+                        Inc(x, ListE([Lit(N(2)), Lit(N(2))]))])])
+  Cp = Pred('C', [Rule([('logica_value', Lit(N(1)), 'Sum')],
+                       [Atom('T', [('col0', x)]), Atom('S', [('col0', a)]),
+                        Inc(x, ListE([a, Lit(N(2))]))], True)])
+  Rp = Pred('R', [Rule([('col0', x, '')],
+                       [Inc(x, ListE([Lit(N(2)), Lit(N(2))])),
+                        Atom('T', [('col0', x)])])])
+  return Prog([T, Sx, Qp, Cp, Rp]), ['Q', 'C', 'R'], ['fam_bound_in_repeated']
+
+
+SEM_FAMILIES = [('if_chain', IfChain), ('repeated_call', RepeatedCall),
+                ('double_negation', DoubleNegation),
+                ('bound_in_repeated', BoundInRepeated)]
